@@ -46,6 +46,34 @@ def _other_commits_after_k(k):
     return mk
 
 
+def _lease_lapses_after_validation(rng, env):
+    """actor 1 (holding the real lock) runs up to and including its validation read; its lease then lapses (the lock object is
+    back-dated past the lease); actor 2 takes the lock over and enters its critical section; actor 1 resumes at its fencing check
+    while 2 holds the lock; then 2 goes on"""
+    import datetime as _dt
+    st = {"aged": False}
+
+    def choose(s, ready):
+        tr1 = [w for a, w in s.trace if a == 1]
+        validated = "lock.acquire" in tr1 and "read_file meta" in tr1[tr1.index("lock.acquire"):]
+        if not validated and 1 in ready:
+            return 1
+        tr2 = [w for a, w in s.trace if a == 2]
+        b_inside = "lock.acquire" in tr2 and "read_file meta" in tr2[tr2.index("lock.acquire"):]
+        if not b_inside and 2 in ready:
+            # keep the lock object stale until actor 2 owns it (actor 1's renewals are not scheduled in this window)
+            if "lock.acquire" not in tr2 or tr2[-1] == "lock.acquire":
+                for k, o in env.fake.objects.items():
+                    if k.endswith(".locks/metadata.lock"):
+                        o.mtime = o.mtime - _dt.timedelta(seconds=120)
+            return 2
+        # actor 2 now holds the lock inside its critical section: actor 1 resumes at its fencing check
+        if 1 in ready:
+            return 1
+        return sorted(ready)[0]
+    return choose
+
+
 def cases(ctx):
     rng = ctx.rng("cases")
     out = []
@@ -54,8 +82,8 @@ def cases(ctx):
                     "chooser": _between_validate_and_etag, "model_cfg": NOLOCK_CFG})
     # the real lock: actor 1 validates, its lease lapses, actor 2 takes the lock over and commits, actor 1 resumes at its fencing check
     for kinds in (["append", "append"], ["delsnap", "append"], ["append", "expire"]):
-        out.append({"backend": "s3cas", "topology": "separate", "clock": "real", "actors": 2, "kinds": kinds, "lock": "takeover",
-                    "chooser": _between_validate_and_etag, "model_cfg": NOLOCK_CFG})
+        out.append({"backend": "s3cas", "topology": "separate", "clock": "real", "actors": 2, "kinds": kinds, "lock": "real",
+                    "chooser": _lease_lapses_after_validation, "chooser_takes_env": True, "model_cfg": NOLOCK_CFG})
     # the pointer object is missing (lost hint): both committers recover by listing; the commit point must still be create-if-absent
     for lock in ("none", "none", "none", "real"):
         out.append({"backend": "s3cas", "topology": "separate", "clock": "real", "actors": 2, "kinds": ["append", "append"], "lock": lock,
